@@ -450,6 +450,10 @@ def configs(rng: random.Random, size: str) -> List[Dict[str, Any]]:
         for (a, b) in rng.sample(pairs, 6 if q else 30):
             C.append({"op": "add", "constraint": con, "sa": a, "sb": b})
         C.append({"op": "add", "constraint": con, "sa": [2, 3], "scalar": rng.choice([2, 0.5, -1.5]), "scalar_side": rng.choice(["left", "right"])})
+        # an operand with exactly ONE element that is not 0-dimensional (a bias of shape (1,) / (1, 1)) against a larger tensor: "is a
+        # scalar" can be decided by numel or by rank, and only numel is right
+        C.append({"op": "add", "constraint": con, "sa": [2, 3], "sb": [1]})
+        C.append({"op": "add", "constraint": con, "sa": [1, 1], "sb": [4, 2, 3]})
     for bt in batches(rng, nb + 2):
         for pidx in (None, 0, -1):
             for mn in (None, 1.0):
